@@ -137,6 +137,9 @@ class Sim:
         self.cp_base = cp_base
         self.low_prio = 0
         self.change_points = 0
+        self.hot_lines = {}           # co_filename -> set(lineno) of shared-state stores
+        self.hot_frames = {}
+        self.hot_hits = 0
         self.preempt_p = preempt_p
         self.sticky = sticky
         self.step_cap = step_cap
@@ -360,18 +363,52 @@ class Sim:
         code = frame.f_code
         flag = self._code_cache.get(code)
         if flag is None:
-            flag = code.co_filename.startswith(self.trace_prefixes) and code.co_name != "<module>"
+            flag = 0
+            if code.co_filename.startswith(self.trace_prefixes) and code.co_name != "<module>":
+                flag = 1
+                hl = self.hot_lines.get(code.co_filename)
+                if hl:
+                    lines = set(l for (_, _, l) in code.co_lines() if l is not None)
+                    if lines & hl:
+                        flag = 2
             self._code_cache[code] = flag
+        if flag == 2:
+            return self._local_trace_hot
         return self._local_trace if flag else None
 
     def _local_trace(self, frame, event, arg):
-        if event == "line" and self.countdown > 0 and not self.aborted:
-            self.countdown -= 1
-            if self.countdown == 0:
-                self.countdown = self.tape.gap(self.preempt_p)
-                self.preempts += 1
-                self.yield_point("line")
+        if event == "line" and not self.aborted:
+            if self.countdown > 0:
+                self.countdown -= 1
+                if self.countdown == 0:
+                    self.countdown = self.tape.gap(self.preempt_p)
+                    self.preempts += 1
+                    self.yield_point("line")
         return self._local_trace
+
+    def _local_trace_hot(self, frame, event, arg):
+        """Frames that contain a shared-state store: yield right before the
+        line that stores and right after it (next line event or return of the
+        SAME frame, so calls made on that line do not count)."""
+        if self.aborted:
+            return self._local_trace_hot
+        if event == "line" or event == "return":
+            hp = self.hot_frames.get(frame)
+            if hp is not None and (event == "return" or frame.f_lineno != hp):
+                del self.hot_frames[frame]
+                self.yield_point("hot-after")
+            if event == "line":
+                if frame.f_lineno in self.hot_lines.get(frame.f_code.co_filename, ()):
+                    self.hot_hits += 1
+                    self.yield_point("hot-before")
+                    self.hot_frames[frame] = frame.f_lineno
+                if self.countdown > 0:
+                    self.countdown -= 1
+                    if self.countdown == 0:
+                        self.countdown = self.tape.gap(self.preempt_p)
+                        self.preempts += 1
+                        self.yield_point("line")
+        return self._local_trace_hot
 
     # ------------------------------------------------------- actor lifecycle
     def _actor_main(self, actor, body):
@@ -380,7 +417,7 @@ class Sim:
         try:
             if self.aborted:
                 return
-            if self.preempt_p > 0.0 and self.trace_prefixes:
+            if (self.preempt_p > 0.0 or self.hot_lines) and self.trace_prefixes:
                 sys.settrace(self._global_trace)
             try:
                 body()
